@@ -11,7 +11,7 @@ down to 1, maximum packet size 0, and a raw hostile peer (`chan.send_packet(MSG_
 sender-side accounting): DATA of any size / datatype, WINDOW_ADJUST of any value, EOF, CLOSE in any order while the
 victim's application pauses and resumes; compared: DATA sizes and WINDOW_ADJUST values on the wire, callbacks,
 ProtocolError or not.  Also the window / packet size advertised in CHANNEL_OPEN / OPEN_CONFIRMATION.
-Also (audit findings D2, D3, D4; repairs b98700f, 9fcdbb2, 6aa4f78): pause_honoured_prop (while the application has
+Also (audit findings D2, D3, D4; repairs e7dbee0, afe8b9e, 9f86e20): pause_honoured_prop (while the application has
 reading paused nothing but its own resume makes the endpoint call data_received — a second `shell` request did before
 the repair: witness second_session_request_ended_pause_preFix, tie second_session_request_refused),
 no_protocol_error_after_local_close (text layer, Model/ChannelDecode.lean; witness
@@ -49,10 +49,10 @@ MANIFEST = {
             'a delivery is enabled whenever data is undelivered and the reader reads (no_deadlock_prop), every delivery '
             'decreases a potential (delivery_decreases_measure), hence every written byte is delivered '
             '(every_byte_eventually_delivered, for a non-zero maximum packet size). The reader\'s pause is honoured '
-            'by every event but its own resume (pause_honoured_prop; a second shell request is refused: repair b98700f); '
+            'by every event but its own resume (pause_honoured_prop; a second shell request is refused: repair e7dbee0); '
             'after the application\'s close() the text layer never raises (no_protocol_error_after_local_close: repair '
-            '9fcdbb2); a layer-3 tunnel endpoint accounts the stripped address family (tun_receiver_accounting: repair '
-            '6aa4f78) — each with a witness theorem for the code before the repair. The behaviour before the fixes '
+            'afe8b9e); a layer-3 tunnel endpoint accounts the stripped address family (tun_receiver_accounting: repair '
+            '9f86e20) — each with a witness theorem for the code before the repair. The behaviour before the fixes '
             'de5c08f / 53cd2ff (spinning send loop, window not enforced while paused) is kept as witness theorems about '
             'the old functions, and the scenarios stay in the oracle corpus.',
     'note': 'fairness of delivery is the assumption of the liveness corollary; stream.py pausing at one window of '
